@@ -507,4 +507,169 @@ Proof.
   - destruct (d <? 0); cbn [rc_st rc_obs rc_k]; now apply Hsame.
 Qed.
 
+Theorem K_step c : K c -> K (rstep c).
+Proof.
+  intros HK. pose proof HK as (I & HJ0 & HQ).
+  split; [apply step_inv; exact I|].
+  destruct c as [s m k l]. cbn [rc_st rc_obs rc_k] in *. destruct k as [|i k].
+  - unfold Replay.rstep. cbn. split; assumption.
+  - destruct i as [p|o n|o|o|o|].
+    + unfold Replay.rstep. cbn [rc_k rc_st rc_obs rc_rlog]. apply JQ_op. exact HK.
+    + (* RIDeliver *)
+      assert (HJ : J s m k).
+      { eapply J_k_mono; [|exact HJ0]. intros o2 H. apply (in_resched_tail _ _ _ H). discriminate. }
+      unfold Replay.rstep. cbn [rc_k rc_st rc_obs rc_rlog].
+      destruct (m o) as [os|] eqn:Hm; cbn [rc_st rc_obs rc_k]; [|split; assumption].
+      destruct (ra_stopped os) eqn:Hst; cbn [rc_st rc_obs rc_k]; [split; assumption|].
+      assert (Hgen : forall stop kk, (forall o2, In (RIResched o2) k -> In (RIResched o2) kk) ->
+                     J s (rupd m o (rcalled stop os)) kk /\ Qq (rupd m o (rcalled stop os))).
+      { intros stop kk Hkk. split.
+        - eapply J_k_mono; [exact Hkk|]. apply (J_upd_ado s m k o os); [exact Hm|reflexivity| |exact HJ].
+          cbn. intros H. apply orb_false_iff in H. tauto.
+        - apply (Qq_upd_same m o os); [exact Hm|reflexivity|reflexivity| |exact HQ].
+          cbn. intros H. apply orb_false_iff in H. tauto. }
+      destruct n as [v|e|]; cbn [rc_st rc_obs rc_k]; apply Hgen; intros o2 H; apply in_resched_ops;
+        try exact H; now right.
+    + (* RIAdoFin *)
+      assert (HJ : J s m k).
+      { eapply J_k_mono; [|exact HJ0]. intros o2 H. apply (in_resched_tail _ _ _ H). discriminate. }
+      unfold Replay.rstep. cbn [rc_k rc_st rc_obs rc_rlog].
+      destruct (m o) as [os|] eqn:Hm; cbn [rc_st rc_obs rc_k]; [|split; assumption].
+      pose proof (J_rado_dispose s m k o os HJ Hm) as HJ2. pose proof (rado_dispose_stopped s os o) as Hst.
+      destruct (rado_dispose s os o) as [s' os']. cbn [fst snd rc_st rc_obs rc_k] in *.
+      split; [exact HJ2|]. now apply Qq_upd_stopped.
+    + (* RIResched *)
+      unfold Replay.rstep. cbn [rc_k rc_st rc_obs rc_rlog]. split; [now apply J_resched|exact HQ].
+    + (* RIHandle *)
+      assert (HJ : J s m k).
+      { eapply J_k_mono; [|exact HJ0]. intros o2 H. apply (in_resched_tail _ _ _ H). discriminate. }
+      unfold Replay.rstep. cbn [rc_k rc_st rc_obs rc_rlog].
+      destruct (m o) as [os|] eqn:Hm; cbn [rc_st rc_obs rc_k]; [|split; assumption].
+      split.
+      * apply (J_upd_ado s m k o os); [exact Hm|reflexivity|cbn; tauto|exact HJ].
+      * apply (Qq_upd_same m o os); [exact Hm|reflexivity|reflexivity|cbn; tauto|exact HQ].
+    + (* RIDrain *)
+      unfold Replay.rstep. cbn [rc_k rc_st rc_obs rc_rlog].
+      destruct (r_sched s) as [|[[it o] cancelled] rest] eqn:Es; cbn [rc_st rc_obs rc_k].
+      { split; [|exact HQ]. eapply J_k_mono; [|exact HJ0].
+        intros o2 H. apply (in_resched_tail _ _ _ H). discriminate. }
+      destruct cancelled; cbn [rc_st rc_obs rc_k].
+      { split; [|exact HQ]. apply (J_pop s m _ it o true rest _ Es HJ0); [auto|discriminate]. }
+      destruct (m o) as [os|] eqn:Hm; cbn [rc_st rc_obs rc_k].
+      2:{ split; [|exact HQ]. apply (J_pop s m _ it o false rest _ Es HJ0); [auto|].
+          intros _ os Hm'. congruence. }
+      destruct (so_queue (r_so os)) as [|n q] eqn:Hq; cbn [rc_st rc_obs rc_k].
+      * (* nothing queued: release the queue *)
+        set (so' := SoState (so_stopped (r_so os)) [] false (so_faulted (r_so os))
+                            (ser_disposed (r_so os)) (ser_cur (r_so os))).
+        split.
+        -- assert (HJm : J s (rupd m o (set_so os so')) (RIDrain :: k)).
+           { destruct HJ0 as [H1 H3]. split; [exact H1|]. intros o2 os2. unfold rupd.
+             destruct (Nat.eqb o2 o) eqn:E; [|apply H3].
+             apply Nat.eqb_eq in E. subst o2. intros [= <-]. destruct (H3 o os Hm) as (F & C & Lv).
+             unfold so_J. cbn. split; [exact F|]. split; [exact C|]. intros Hs.
+             destruct (Lv Hs) as [D _]. split; [exact D|discriminate]. }
+           apply (J_pop s _ _ it o false rest _ Es HJm); [auto|].
+           intros _ os2. rewrite rupd_same. intros [= <-] _ Ha. discriminate.
+        -- intros o2 os2. unfold rupd. destruct (Nat.eqb o2 o); [|apply HQ]. intros [= <-]. reflexivity.
+      * (* work = queue.pop(0) *)
+        set (so' := SoState (so_stopped (r_so os)) q (so_acquired (r_so os)) (so_faulted (r_so os))
+                            (ser_disposed (r_so os)) (ser_cur (r_so os))).
+        split.
+        -- assert (HJm : J s (rupd m o (set_so os so')) (RIDrain :: k)).
+           { apply (J_upd_so s m _ o os so' Hm); try reflexivity. exact HJ0. }
+           apply (J_pop s _ _ it o false rest _ Es HJm).
+           ++ intros o2 H. right. right. exact H.
+           ++ intros _ _ _ _ _. right. now left.
+        -- intros o2 os2. unfold rupd. destruct (Nat.eqb o2 o) eqn:E; [|apply HQ].
+           apply Nat.eqb_eq in E. subst o2. intros [= <-] Hs Ha. cbn in Ha |- *.
+           rewrite (HQ o os Hm Hs Ha) in Hq. discriminate.
+Qed.
+
+(* ---- the driver's instruction list ends with a drain loop, and when it is
+        exhausted the scheduler queue is empty ---- *)
+Definition Mq (c : @rcfg A) : Prop :=
+  (rc_k c = [] -> r_sched (rc_st c) = []) /\
+  (rc_k c <> [] -> exists pre, rc_k c = pre ++ [RIDrain]).
+
+Lemma step_k_shape c i tail :
+  rc_k c = i :: tail -> tail <> [] -> exists pre, rc_k (rstep c) = pre ++ tail.
+Proof.
+  destruct c as [s m k l]. cbn [rc_k]. intros -> Hne. unfold Replay.rstep. cbn [rc_k rc_st rc_obs rc_rlog].
+  destruct i as [p|o n|o|o|o|].
+  - unfold rstep_op. destruct p as [o|o|v|e| | |d].
+    + destruct (m o); [exists []; reflexivity|]. destruct (r_disposed s).
+      * exists (map RIOp (react o 0) ++ [RIHandle o]). cbn [rc_k]. now rewrite <- app_assoc.
+      * destruct (ensure_active _ _ _). exists []. reflexivity.
+    + destruct (m o) as [os|]; [|exists []; reflexivity]. destruct (r_handle os); [|exists []; reflexivity].
+      destruct (rado_dispose s os o). exists []. reflexivity.
+    + destruct (r_disposed s); [exists []; reflexivity|]. destruct (r_stopped s); [exists []; reflexivity|].
+      repeat match goal with |- context [so_each ?f ?a ?bb ?c] => destruct (so_each f a bb c) end.
+      exists []. reflexivity.
+    + destruct (r_disposed s); [exists []; reflexivity|]. destruct (r_stopped s); [exists []; reflexivity|].
+      repeat match goal with |- context [so_each ?f ?a ?bb ?c] => destruct (so_each f a bb c) end.
+      exists []. reflexivity.
+    + destruct (r_disposed s); [exists []; reflexivity|]. destruct (r_stopped s); [exists []; reflexivity|].
+      repeat match goal with |- context [so_each ?f ?a ?bb ?c] => destruct (so_each f a bb c) end.
+      exists []. reflexivity.
+    + exists []. reflexivity.
+    + destruct (d <? 0); exists []; reflexivity.
+  - destruct (m o) as [os|]; [|exists []; reflexivity]. destruct (ra_stopped os); [exists []; reflexivity|].
+    destruct n.
+    + exists (map RIOp (react o (r_calls os))). reflexivity.
+    + exists (map RIOp (react o (r_calls os)) ++ [RIAdoFin o]). cbn [rc_k]. now rewrite <- app_assoc.
+    + exists (map RIOp (react o (r_calls os)) ++ [RIAdoFin o]). cbn [rc_k]. now rewrite <- app_assoc.
+  - destruct (m o) as [os|]; [|exists []; reflexivity]. destruct (rado_dispose s os o). exists []. reflexivity.
+  - exists []. reflexivity.
+  - destruct (m o); exists []; reflexivity.
+  - destruct (r_sched s) as [|[[it o] c] rest]; [exists []; reflexivity|].
+    destruct c; [exists [RIDrain]; reflexivity|]. destruct (m o) as [os|]; [|exists [RIDrain]; reflexivity].
+    destruct (so_queue (r_so os)); [exists [RIDrain]; reflexivity|].
+    exists [RIDeliver o e; RIResched o; RIDrain]. reflexivity.
+Qed.
+
+Lemma Mq_step c : Mq c -> Mq (rstep c).
+Proof.
+  intros [M1 M2]. destruct (rc_k c) as [|i tail] eqn:Ek.
+  - rewrite (rstep_done react c Ek). split; [intros _; exact (M1 eq_refl)|intros H; congruence].
+  - destruct (M2 ltac:(discriminate)) as [pre Hpre].
+    destruct tail as [|j tail'] eqn:Et.
+    + (* the last instruction is the drain loop *)
+      assert (i = RIDrain).
+      { destruct pre as [|x pre']; cbn in Hpre; [now injection Hpre|].
+        injection Hpre as _ H. destruct pre'; discriminate. }
+      subst i. destruct c as [s m k l]. cbn [rc_k] in Ek. subst k.
+      unfold Replay.rstep. cbn [rc_k rc_st rc_obs rc_rlog].
+      destruct (r_sched s) as [|[[it o] c] rest] eqn:Es; cbn [rc_k rc_st].
+      * split; [intros _; exact Es|intros H; congruence].
+      * destruct c; cbn [rc_k rc_st].
+        { split; [discriminate|intros _; exists []; reflexivity]. }
+        destruct (m o) as [os|]; cbn [rc_k rc_st]; [|split; [discriminate|intros _; exists []; reflexivity]].
+        destruct (so_queue (r_so os)); cbn [rc_k rc_st].
+        -- split; [discriminate|intros _; exists []; reflexivity].
+        -- split; [discriminate|intros _; exists [RIDeliver o e; RIResched o]; reflexivity].
+    + destruct (step_k_shape c i (j :: tail') Ek ltac:(discriminate)) as [pre2 Hk2].
+      assert (Htail : exists pre3, j :: tail' = pre3 ++ [RIDrain]).
+      { destruct pre as [|x pre']; cbn in Hpre; [discriminate|]. injection Hpre as _ H. eauto. }
+      destruct Htail as [pre3 Hp3]. split.
+      * rewrite Hk2. intros H. apply app_eq_nil in H. destruct H as [_ H]. discriminate.
+      * intros _. exists (pre2 ++ pre3). rewrite Hk2, Hp3. now rewrite app_assoc.
+Qed.
+
+Lemma Mq_init (bs : option Z) (top : list (@rop A)) : Mq (rinit_cfg bs w top).
+Proof.
+  split; [reflexivity|]. cbn [rinit_cfg rc_k]. intros Hne.
+  induction top as [|p t IH]; [contradiction|]. cbn [flat_map app].
+  destruct t as [|q t']; [exists [RIOp p]; reflexivity|].
+  destruct (IH ltac:(discriminate)) as [pre Hpre]. exists (RIOp p :: RIDrain :: pre).
+  cbn [flat_map app] in *. now rewrite Hpre.
+Qed.
+
 End Live.
+
+Lemma K_init {A} (bs w : option Z) (top : list (@rop A)) : K (bufsize_of bs) w (rinit_cfg bs w top).
+Proof.
+  split; [apply Inv_init|]. split.
+  - split; [split; cbn; [constructor|intros i []]|]. intros o os H. discriminate.
+  - intros o os H. discriminate.
+Qed.
